@@ -283,6 +283,14 @@ pub fn scientific(sci: &(Base,Exponent)) -> Value {
   let b = part.chars.iter().collect::<String>();
   let c = exp_whole.chars.iter().collect::<String>();
   let d = exp_part.chars.iter().collect::<String>();
+  // With an integer exponent the whole spelling is a decimal literal: let the
+  // correctly rounded parser read it instead of multiplying by a rounded power.
+  if d.is_empty() {
+    let spelled = format!("{}.{}e{}{}", if a.is_empty() { "0" } else { a.as_str() }, if b.is_empty() { "0" } else { b.as_str() }, if *sign { "-" } else { "" }, c);
+    if let Ok(num) = spelled.parse::<f64>() {
+      return Value::F64(Ref::new(num));
+    }
+  }
   let num_f64: f64 = format!("{}.{}",a,b).parse::<f64>().unwrap();
   let mut exp_f64: f64 = format!("{}.{}",c,d).parse::<f64>().unwrap();
   if *sign {
